@@ -234,7 +234,8 @@ class Sym:
         if isinstance(e, ast.Subscript):
             base = self.ev(e.value)
             if base[0] == 'keys':
-                idx = [norm(x) for x in (e.slice.elts if isinstance(e.slice, ast.Tuple) else [e.slice])]
+                km = getattr(self, 'kmap', {})
+                idx = [str(km.get(norm(x), norm(x))) for x in (e.slice.elts if isinstance(e.slice, ast.Tuple) else [e.slice])]
                 return ('w8', ('K',) + tuple(idx))
             h = self.half_of(e.slice)
             if base[0] != 'pair':
@@ -382,6 +383,123 @@ def d3prime(ctx, prog, steps, ci, tpl, disp):
     return n
 
 
+def compose(ctx, prog, steps, ci, disp):
+    """whole-cipher composition for every stop point: _prepare_des_iterations (and through it _prepare_rounds) is partially
+    evaluated (sa.confinterp; cipher data opaque) for every at_des x at_round x after_step; every round of every pass it yields
+    is evaluated on fresh symbolic halves (L, R) with its own key index and must give FIPS 46-3's value at that point: a complete
+    round (R, L^f(R,K)), the unswapped pre-output at the end of a pass, IP before the first round only, IP^-1 after the very last
+    round only, and the documented intermediate at the stop step.  Any write into a shared class-level template is reported."""
+    from .. import confinterp as cf
+    it = cf.Interp(prog)
+    meth = prog.resolve_method(ci, '_prepare_des_iterations')
+    if meth is None:
+        raise AnalysisError('_prepare_des_iterations not found')
+    byval = {v: k for k, v in steps.items()}
+    nsteps = len(steps)
+    memo = {}
+    n = 0
+    bad = {}
+    writes = {}
+    und = None
+
+    def round_state(names, p, r):
+        k = (names, p, r)
+        if k not in memo:
+            sym = Sym(prog, disp, D)
+            sym.kmap = {'des_number': p, 'round_number': r}
+            env = {q: ('keys',) if 'key' in q else ('idx', q) for q in disp.params[3:]}
+            state = ('pair', 'L', 'R')
+            try:
+                for op in names:
+                    state = sym.step(op, state, env)
+                memo[k] = ('ok', state)
+            except AnalysisError as e:
+                memo[k] = ('err', str(e))
+        return memo[k]
+
+    for at_des in range(3):
+        for at_round in range(16):
+            for stop in range(nsteps):
+                o = cf.Obj(ci, at_des=at_des, at_round=at_round, after_step=cf.Member(stop, 'Steps', byval[stop]), mode='encrypt')
+                before = len(it.template_writes)
+                for c_ in prog.mro(ci):
+                    for nm in c_.class_assigns:
+                        try:
+                            it.class_value(ci, nm)
+                        except cf.Unknown:
+                            pass
+                snap = {k_: cf.snapshot(v_) for k_, v_ in it.class_attrs.items()}
+                try:
+                    its = it.call(meth, selfobj=o)
+                except cf.Unknown as e:
+                    und = str(e)
+                    break
+                except cf.Raised as e:
+                    bad.setdefault(f'configuration refused ({e.kind})', (at_des, at_round, stop))
+                    continue
+                if len(it.template_writes) > before:
+                    changed = {k_[1] for k_, v_ in it.class_attrs.items() if k_ in snap and cf.snapshot(v_) != snap[k_]}
+                    for origin, node in it.template_writes[before:]:
+                        if origin.split('.')[-1] in changed:       # a store of the value already there is not a modification
+                            writes.setdefault((origin, norm(node)[:80]), (node, at_des, at_round, stop))
+                    if changed:
+                        it.class_attrs.clear()
+                        it.globals.clear()
+                cfg = f'at_des={at_des}, at_round={at_round}, after_step={stop} ({byval[stop]})'
+                if not isinstance(its, list) or len(its) != at_des + 1:
+                    bad.setdefault(f'{len(its) if isinstance(its, list) else "?"} DES passes prepared', (at_des, at_round, stop))
+                    continue
+                for p, rounds in enumerate(its):
+                    final = p == at_des
+                    want = at_round + 1 if final else 16
+                    if len(rounds) != want:
+                        bad.setdefault(f'pass {p} runs {len(rounds)} rounds, expected {want}', (at_des, at_round, stop))
+                        continue
+                    for r, ops in enumerate(rounds):
+                        names = tuple((x.mname if isinstance(x, cf.Member) else None) for x in ops)
+                        is_stop = final and r == at_round
+                        res = round_state(names, p, r)
+                        n += 1
+                        K = ('K', str(p), ':', str(r), ':')
+                        x = Sym.xor(('E', 'R'), K)
+                        fR = ('P', ('S', x))
+                        Lf = Sym.xor('L', fR)
+                        if not is_stop:
+                            exp = ('pair', Lf, 'R') if r == 15 else ('pair', 'R', Lf)
+                        else:
+                            table = {0: ('pair', 'L', 'R'), 1: ('w8', ('E', 'R')), 2: ('w8', x), 3: ('w8', ('S', x)), 4: ('pair', fR, '0'),
+                                     5: ('pair', Lf, 'R'), 6: ('pair', 'R', Lf), 7: ('w8', ('Pinv', Lf)), 8: ('w8', ('Pinv', Sym.xor(Lf, 'R'))),
+                                     9: ('block', ('FP', Lf, 'R')) if r == 15 else ('pair', 'R', Lf)}
+                            exp = table[stop]
+                        if p == 0 and r == 0:
+                            exp = subst(exp, {'L': ('IP.L', 'L', 'R'), 'R': ('IP.R', 'L', 'R')})
+                        where = f'pass {p} round {r}' + (' (stop point)' if is_stop else '')
+                        if res[0] == 'err':
+                            bad.setdefault(f'{where}: step sequence {list(names)} cannot be evaluated: {res[1]}', (at_des, at_round, stop))
+                        elif res[1] != exp:
+                            bad.setdefault(f'{where}: steps {[x for x in names if x]} give {show(res[1])}; FIPS 46-3 gives {show(exp)}', (at_des, at_round, stop))
+            if und:
+                break
+        if und:
+            break
+    key = f'{meth.key}::whole-cipher composition'
+    if und:
+        ctx.undecided("C06-D3'", key, f'configuration code not evaluable: {und}', meth.where())
+        return 0
+    for (origin, txt), (node, a, b, c) in writes.items():
+        ctx.fail('C06-D4', f'{ci.key}::{origin} written::{txt}', f'`{txt}` writes into the class-level template {origin} (first seen for at_des={a}, at_round={b}, after_step={c}): '
+                 f'every later call in the process runs a modified cipher', ci.mod.relpath + f':{getattr(node, "lineno", 0)}')
+    if not writes:
+        ctx.ok('C06-D4', f'{ci.key}::templates never written', f'no configuration (3 x 16 x {nsteps}) writes into a shared template: the stop-point surgery works on private copies', ci.mod.relpath)
+    if bad:
+        for msg, (a, b, c) in list(bad.items())[:6]:
+            ctx.fail("C06-D3'", f'{key}::{msg[:90]}', f'{msg} (first seen for at_des={a}, at_round={b}, after_step={c}; {len(bad)} distinct discrepancies)', meth.where())
+    else:
+        ctx.ok("C06-D3'", key, f'{3 * 16 * nsteps} stop points, {n} rounds evaluated ({len(memo)} distinct step sequences): each equals the FIPS 46-3 value at that point', meth.where(),
+               stop_points=3 * 16 * nsteps, rounds=n, distinct=len(memo))
+    return len(memo)
+
+
 def subst(t, m):
     if isinstance(t, str):
         return m.get(t, t)
@@ -405,29 +523,6 @@ def show(t):
 
 
 def d4(ctx, prog, ci):
-    f = ci.methods['_prepare_rounds']
-    # element stores into rounds[-1][...] must come after the slice-copy statement, in the same block
-    body = f.node.body
-    copy_idx = None
-    for i, st in enumerate(body):
-        if isinstance(st, ast.Assign) and norm(st.targets[0]).replace(' ', '') == 'rounds[-1]' and isinstance(st.value, ast.Subscript) \
-                and isinstance(st.value.slice, ast.Slice) and norm(st.value.value).replace(' ', '') == 'rounds[-1]':
-            copy_idx = i
-    bad = []
-    n = 0
-    for i, st in enumerate(body):
-        for sub in ast.walk(st):
-            if isinstance(sub, ast.Assign) and isinstance(sub.targets[0], ast.Subscript) and isinstance(sub.targets[0].value, ast.Subscript):
-                n += 1
-                if copy_idx is None or i <= copy_idx:
-                    bad.append(sub)
-            if isinstance(sub, ast.Call) and isinstance(sub.func, ast.Attribute) and sub.func.attr in ('append', 'extend', 'insert', 'pop', 'remove', 'clear', 'sort', 'reverse') \
-                    and isinstance(sub.func.value, ast.Subscript):
-                bad.append(sub)
-    # the templates appended are the operation lists themselves: list slicing copies, so only the sliced last round is private
-    ctx.check(not bad and copy_idx is not None, 'C06-D4', f'{f.key}::writes only its slice copy',
-              f'`{norm(bad[0])[:60] if bad else "no slice copy"}`: a round template shared at class level would be modified (every later call sees the altered template)',
-              f'{n} element stores, all after `rounds[-1] = rounds[-1][:...]` (a private copy of the template)', f.where())
     for name in ('FIRST_ROUND', 'ROUND', 'LAST_ROUND', 'FINAL_ROUND', 'MANDATORY_ROUND_ELEMENTS'):
         for g in prog.funcs_in(D):
             for t, st, how in kernels.stores(g.node):
@@ -439,90 +534,115 @@ def d4(ctx, prog, ci):
 
 
 def d5(ctx, prog, ci):
-    """truth table of _prepare_keys by constant evaluation of its conditions"""
+    """EDE key order: _prepare_keys is partially evaluated (sa.confinterp, arrays opaque but sliceable) for every mode x key
+    length x at_des; the key material and round-key direction of every pass must be those of E-D-E / D-E-D (FIPS 46-3 TDES)."""
+    from .. import confinterp as cf
     f = ci.methods.get('_prepare_keys')
     if f is None:
         raise AnalysisError('_prepare_keys not found')
-    loops = [l for l in f.node.body if isinstance(l, ast.For)]
-    if len(loops) != 1 or norm(loops[0].iter).replace(' ', '') != 'range(self.at_des+1)':
-        ctx.undecided('C06-D5', f'{f.key}::pass loop', 'pass loop `for current_des in range(self.at_des + 1)` not recognised', f.where())
-        return 0
-    loop = loops[0]
-    var = loop.target.id
+    ks = prog.need_func(D, 'key_schedule')
 
-    def evalc(e, env):
-        if isinstance(e, ast.Constant):
-            return e.value
-        if isinstance(e, ast.Name):
-            return env[e.id]
-        if isinstance(e, ast.Attribute):
-            t = norm(e)
-            if t in env:
-                return env[t]
-        if isinstance(e, ast.Subscript):
-            t = norm(e).replace(' ', '')
-            if t in env:
-                return env[t]
-        if isinstance(e, ast.BoolOp):
-            vs = [evalc(v, env) for v in e.values]
-            return all(vs) if isinstance(e.op, ast.And) else any(vs)
-        if isinstance(e, ast.Compare) and len(e.ops) == 1:
-            l, r = evalc(e.left, env), evalc(e.comparators[0], env)
-            return {ast.Eq: l == r, ast.NotEq: l != r, ast.Lt: l < r, ast.Gt: l > r}[type(e.ops[0])]
-        if isinstance(e, ast.BinOp):
-            import operator
-            return {ast.Add: operator.add, ast.Sub: operator.sub, ast.Mult: operator.mul}[type(e.op)](evalc(e.left, env), evalc(e.right, env))
-        if isinstance(e, ast.UnaryOp) and isinstance(e.op, ast.Not):
-            return not evalc(e.operand, env)
-        raise AnalysisError(f'cannot evaluate `{norm(e)[:50]}`')
+    def canon(v):
+        """(key bytes (lo, hi), expanded by key_schedule?, number of reversals of the round axis mod 2) of one pass"""
+        flips = 0
+        while isinstance(v, cf.Sym) and v.term and v.term[0] == 'call' and v.term[1].split('.')[-1] == 'flip':
+            kw = dict(v.term[3])
+            ax = kw.get('axis', v.term[2][1] if len(v.term[2]) > 1 else None)
+            if ax != 1:
+                return ('flip over axis', ax)
+            flips += 1
+            v = v.term[2][0]
+        sched = None
+        if isinstance(v, cf.Sym) and v.term and v.term[0] == 'call' and v.term[1] == ks.name:
+            sched = True
+            v = v.term[2][0] if v.term[2] else dict(v.term[3]).get('key')
+        elif isinstance(v, cf.Sym) and v.term and v.term[0] == 'call' and v.term[1].endswith('.reshape'):
+            if tuple(v.term[2]) not in ((-1, 16, 8), ((-1, 16, 8),)):
+                return ('reshape', v.term[2])
+            sched = False
+            # the receiver of .reshape is encoded in the callee name: recover it from the index term kept on the Sym
+            v = v.base if hasattr(v, 'base') else None
+        if not (isinstance(v, cf.Sym) and v.term and v.term[0] == 'index'):
+            return ('unrecognised', getattr(v, 'name', v))
+        base, idx = v.term[1], v.term[2]
+        if not (isinstance(idx, tuple) and len(idx) == 2 and isinstance(idx[0], slice) and idx[0] == slice(None, None, None) and isinstance(idx[1], slice)):
+            return ('index', cf.fmt(idx))
+        root = base
+        if isinstance(root, cf.Sym) and root.term and root.term[0] == 'call' and root.term[1].endswith('.reshape') and hasattr(root, 'base'):
+            root = root.base          # the (1, n) view of a single key
+        if not (isinstance(root, cf.Sym) and root.name == 'key'):
+            return ('taken from', getattr(base, 'name', base))
+        return ((idx[1].start or 0, idx[1].stop), sched, flips % 2)
 
-    def run_block(stmts, env, rec):
-        for st in stmts:
-            if isinstance(st, ast.If):
-                run_block(st.body if evalc(st.test, env) else st.orelse, env, rec)
-            elif isinstance(st, ast.Expr) and isinstance(st.value, ast.Call) and norm(st.value.func).endswith('.append'):
-                a = st.value.args[0]
-                sl = [s for s in ast.walk(a) if isinstance(s, ast.Subscript) and isinstance(s.slice, ast.Tuple) and isinstance(s.slice.elts[-1], ast.Slice)]
-                if len(sl) != 1:
-                    raise AnalysisError('appended key part is not one slice of the key array')
-                s = sl[0].slice.elts[-1]
-                lo, hi = evalc(s.lower, env) if s.lower is not None else 0, evalc(s.upper, env)
-                rec['part'] = (lo, hi)
-                rec['schedule'] = any(isinstance(c, ast.Call) and norm(c.func) == 'key_schedule' for c in ast.walk(a))
-            elif isinstance(st, ast.Assign) and isinstance(st.value, ast.Call) and norm(st.value.func).split('.')[-1] == 'flip':
-                ax = [k.value for k in st.value.keywords if k.arg == 'axis']
-                rec['flip'] = const_value(ax[0]) if ax else None
-            elif isinstance(st, ast.Expr) and isinstance(st.value, ast.Constant):
-                pass
-            else:
-                raise AnalysisError(f'_prepare_keys statement `{norm(st)[:50]}` not modelled')
     n = 0
     bad = []
+    und = None
     for mode in ('encrypt', 'decrypt'):
         for klen in (8, 16, 24, 128, 256, 384):
             unit = 8 if klen <= 24 else 128
             nkeys = klen // unit
-            passes = 1 if nkeys == 1 else 3
-            for p in range(passes):
-                env = {var: p, 'self.mode': mode, 'key.shape[-1]': klen}
-                rec = {}
-                run_block(loop.body, env, rec)
-                n += 1
-                # FIPS 46-3 TDES: encrypt = E_K3(D_K2(E_K1)), decrypt = D_K1(E_K2(D_K3)); K3 = K1 for two keys.
+            for at_des, kdim in [(a_, d_) for a_ in (range(1) if nkeys == 1 else range(3)) for d_ in (2, 1)]:
+                it = cf.Interp(prog)
+                it.opaque_funcs = {ks.key}
+                key = cf.Sym('key', attrs={'ndim': kdim, 'shape': (cf.Sym('n'), klen) if kdim == 2 else (klen,)})
+                state = cf.Sym('state', attrs={'ndim': 2, 'shape': (cf.Sym('n'), 8)})
+                o = cf.Obj(ci, at_des=at_des, mode=mode)
+                try:
+                    orig = it.callexpr
+
+                    def callexpr(e, env, mod, func, depth, orig=orig, it=it):
+                        r = orig(e, env, mod, func, depth)
+                        if isinstance(r, cf.Sym) and r.term and r.term[0] == 'call' and r.term[1].endswith('.reshape') and isinstance(e.func, ast.Attribute):
+                            r.base = it.ev(e.func.value, env, mod, func, depth)
+                        return r
+                    it.callexpr = callexpr
+                    res = it.call(f, kwargs=dict(key=key, state=state), selfobj=o)
+                except cf.Unknown as e:
+                    und = str(e)
+                    break
+                except cf.Raised as e:
+                    bad.append((mode, klen, at_des, f'refused ({e.kind})', ''))
+                    continue
+                # np.array(expanded_keys, dtype=...) -> the list of passes
+                passes = None
+                if isinstance(res, cf.Sym) and res.term and res.term[0] == 'call' and res.term[2] and isinstance(res.term[2][0], list):
+                    passes = res.term[2][0]
+                elif isinstance(res, list):
+                    passes = res
+                if passes is None or len(passes) != at_des + 1:
+                    bad.append((mode, klen, at_des, f'{len(passes) if passes is not None else "?"} passes prepared', f'{at_des + 1} passes'))
+                    continue
+                # FIPS 46-3 TDES: encrypt = E_K3(D_K2(E_K1)), decrypt = D_K1(E_K2(D_K3)); K3 = K1 for two keys
                 order = [0, 1, 2 if nkeys == 3 else 0] if mode == 'encrypt' else [2 if nkeys == 3 else 0, 1, 0]
-                want_part = (order[p] * unit, (order[p] + 1) * unit) if passes == 3 else (0, unit)
-                decrypting = (mode == 'encrypt' and p == 1) or (mode == 'decrypt' and p != 1)
-                want_flip = 1 if decrypting else None
-                if rec.get('part') != want_part or rec.get('flip') != want_flip or rec.get('schedule') != (unit == 8):
-                    bad.append((mode, klen, p, rec, want_part, want_flip))
-    key = f'{f.key}::EDE truth table'
+                for p_, v in enumerate(passes):
+                    n += 1
+                    part = order[p_] if nkeys > 1 else 0
+                    decrypting = (mode == 'encrypt' and p_ == 1) or (mode == 'decrypt' and p_ != 1)
+                    want = ((part * unit, (part + 1) * unit), unit == 8, 1 if decrypting else 0)
+                    got = canon(v)
+                    if got != want:
+                        bad.append((mode, klen, at_des, f'pass {p_} uses {describe(got)}', describe(want)))
+            if und:
+                break
+        if und:
+            break
+    key_ = f'{f.key}::EDE truth table'
+    if und:
+        ctx.undecided('C06-D5', key_, f'key preparation not evaluable: {und}', f.where())
+        return 0
     if bad:
-        mode, klen, p, rec, wp, wf = bad[0]
-        ctx.fail('C06-D5', key, f'{mode}, {klen}-byte key, pass {p}: uses key bytes {rec.get("part")} reversed={rec.get("flip") == 1}; FIPS 46-3 EDE requires bytes {wp} reversed={wf == 1} '
-                                f'({len(bad)} of {n} table rows differ)', f.where(), rows=n)
+        mode, klen, at_des, got, want = bad[0]
+        ctx.fail('C06-D5', key_, f'{mode}, {klen}-byte key, at_des={at_des}: {got}; FIPS 46-3 EDE requires {want} ({len(bad)} of {n} passes differ)', f.where(), rows=n)
     else:
-        ctx.ok('C06-D5', key, f'all {n} rows (mode x key length x pass) select the key part and round-key direction of E-D-E / D-E-D', f.where(), rows=n)
+        ctx.ok('C06-D5', key_, f'all {n} passes (mode x key length x at_des x pass) use the key part and round-key direction of E-D-E / D-E-D', f.where(), rows=n)
     return n
+
+
+def describe(t):
+    if len(t) == 3 and isinstance(t[0], tuple):
+        (lo, hi), sched, flip = t
+        return f'key bytes [{lo}:{hi}] {"through key_schedule" if sched else "as expanded round keys" if sched is False else "raw"}, round keys {"reversed" if flip else "in order"}'
+    return str(t)
 
 
 def d6(ctx, prog, modname, rule):
@@ -554,17 +674,19 @@ def run(ctx, prog):
     ctx.rule('C06-D1', 'SBOXES literal == FIPS 46-3 S1..S8 re-indexed to 6-bit direct order (512 entries)')
     ctx.rule('C06-D2', 'bit provenance of IP, IP^-1, E, P, P^-1 equals the FIPS tables; sboxes applies table k to word k; add_round_key is xor')
     ctx.rule('C06-D3', 'templates: position discipline, IP/FP/swap placement, core steps, exhaustive dispatcher, inclusive stop point')
-    ctx.rule('C06-D3\'', 'symbolic half-block term of every template x stop step equals the FIPS 46-3 round function value')
+    ctx.rule('C06-D3\'', 'whole-cipher composition: for every at_des x at_round x after_step the configuration code is partially evaluated and every round it yields, evaluated on symbolic halves with its own key index, equals the FIPS 46-3 value at that point')
     ctx.rule('C06-D4', 'stop-point surgery writes only a private slice copy; class-level templates are never written; every step sequence is evaluable (typestate of the state buffer)')
     ctx.rule('C06-D5', 'EDE key order truth table over (mode, key length, pass)')
     ctx.rule('C06-D6', 'no in-place effect reaches a caller-owned array')
-    ctx.assume('whole-cipher composition over 16 rounds x 3 passes for every stop point is the run of the list surgery on run-time integers: the ingredients are decided, not the run')
+    ctx.assume('the driver loop applies the prepared steps in list order with des_number / round_number = their enumerate positions (checked structurally under C06-D3); the broadcasting shapes are numpy run-time behaviour')
     ctx.assume('FIPS 46-3 tables in spec/fips.py (typed from the standard, cross-validated against pycryptodome by selftest)')
     d1(ctx, prog)
     nbits = d2(ctx, prog)
     steps, ci, tpl, disp = d3(ctx, prog)
-    n3 = d3prime(ctx, prog, steps, ci, tpl, disp)
+    n3 = compose(ctx, prog, steps, ci, disp)
     d4(ctx, prog, ci)
+    from .c05 import buffer_dtypes
+    ctx.floor('buffer allocations judged (des)', buffer_dtypes(ctx, prog, D, 'C06-D2'), 8)
     n5 = d5(ctx, prog, ci)
     n6 = d6(ctx, prog, D, 'C06-D6')
     ctx.floor('permutation output bits decided', nbits, 64 + 64 + 48 + 32 + 32)
